@@ -77,3 +77,36 @@ def _py_set_item(target, i, x):
   """Overload of set_item that executes a Python list modification."""
   target[i] = x
   return target
+
+
+def update_item_with_op(target, i, x, op):
+  """The slice update operator (e.g. target[i] += x).
+
+  Args:
+    target: An entity that supports getitem and setitem semantics.
+    i: Index (or slice) to update.
+    x: The right-hand operand of the update.
+    op: Text, the lower-case name of the operator node (add, sub, mult, div, pow).
+
+  Returns:
+    Same as target, after the update was performed.
+  """
+  ### Implement your own version of this operator. ###
+  return _py_update_item_with_op(target, i, x, op)
+
+
+def _py_update_item_with_op(target, i, x, op):
+  """Overload of update_item_with_op that executes the Python statement."""
+  if op == 'add':
+    target[i] += x
+  elif op == 'sub':
+    target[i] -= x
+  elif op == 'mult':
+    target[i] *= x
+  elif op == 'div':
+    target[i] /= x
+  elif op == 'pow':
+    target[i] **= x
+  else:
+    raise ValueError('unsupported operator "{}"'.format(op))
+  return target
